@@ -308,6 +308,7 @@ def run(ctx):
     apply_price_rule(ctx, prog)
     optimizer_always_runs(ctx, prog)
     limit_is_constant(ctx, prog)
+    subquery_positions(ctx, prog)
 
 
 def subquery_clauses(ctx, prog):
@@ -510,3 +511,49 @@ def limit_is_constant(ctx, prog):
                    what='the binder accepts any expression as LIMIT / OFFSET: `select * from t limit a` panics in row estimation '
                         '("limit should be constant")')
     ctx.anchor(R6, 'binder: construction of a Limit node', hit)
+
+
+def subquery_positions(ctx, prog):
+    """C17-R7: IN / EXISTS only where the rules can unnest them"""
+    R7 = 'C17-R7'
+    ctx.rule(R7, 'the rules that turn IN / EXISTS into semi / anti joins match them as conjuncts of a filter only (`(filter (exists ..) ..)`, '
+                 '`(filter (not (exists ..)) ..)`, after filter splitting); bind_expr creates them anywhere in an expression. So the WHERE / '
+                 'HAVING condition must pass a position check before it becomes a Filter: a function that receives the condition, '
+                 'distinguishes And / Or / Not from In / Exists, and can fail the statement')
+    bs = next((x for n, x in prog.bodies.items() if n.endswith('::bind_select') and 'binder::select' in n), None)
+    if not ctx.anchor(R7, 'binder::select::bind_select', bs is not None):
+        return
+    ctx.functions_analysed.add(bs.name)
+    wh = [c for c in bs.calls if (c.fn or '').rsplit('::', 1)[-1] in ('bind_where', 'bind_having')]
+    if not ctx.anchor(R7, 'bind_select: bind_where / bind_having', wh):
+        return
+
+    def is_position_check(name, depth=2, seen=None):
+        seen = seen if seen is not None else set()
+        if name in seen or depth < 0 or name not in prog.bodies:
+            return False
+        seen.add(name)
+        for g in prog.group(prog.bodies[name].root):
+            arms = set()
+            for bl in g.blocks:
+                t = bl['term']
+                if t['k'] == 'switch' and t.get('adt') == 'planner::Expr':
+                    nm = t.get('variants', {})
+                    arms |= {nm.get(str(v)) for v, tgt in t['targets'] if tgt != t.get('otherwise')}
+            # a focused function of the binder, not one of the big per-node tables (type analysis, Display, Hash ..)
+            if {'In', 'Exists'} <= arms and ({'And', 'Or'} & arms) and g.name.startswith('binder::') and len(arms) <= 12:
+                return True
+            for c in g.calls:
+                for n in prog.callee_bodies(c):
+                    if is_position_check(n, depth - 1, seen):
+                        return True
+        return False
+    checked = set()
+    for c in bs.calls + [k for w in wh for n in prog.callee_bodies(w) for k in prog.bodies[n].calls]:
+        if any(is_position_check(n) for n in prog.callee_bodies(c)):
+            checked.add(c.bb)
+    ctx.ob(R7, 'bind_select·in/exists-position-checked', bool(checked),
+           f'calls from bind_select / bind_where / bind_having into a function that tells And/Or from In/Exists: {sorted(checked)}',
+           [site(bs, c.bb) for c in wh],
+           what='IN / EXISTS are accepted anywhere in WHERE but only unnested as conjuncts: `where a = 1 or exists (select ..)` panics the '
+                'executor builder (column $1.1 not found from input)')
